@@ -683,6 +683,27 @@ def gen_c03_spec(rng: random.Random, maxn: int = 40) -> Dict[str, Any]:
             if m.get("kind", "valid") == "valid" and m["task"] == "t_async" and m["beh"].get("dur") and m.get("timeout") is None \
                     and m.get("timeout_raw") is None and rng.random() < 0.5:
                 m["beh"]["dur"] = [rng.choice(["w0.05", "w0.3", "w1.0"])]
+    r_x = rng.random()
+    if r_x < 0.1:
+        # a message with a timeout label hands itself back (Context.requeue); its second delivery hangs, and only the label -
+        # which belongs to the message, whichever delivery it is - ends it and frees the slot
+        spec["loopback"] = True
+        for m in msgs[:n]:
+            if m.get("kind", "valid") == "valid" and m["task"] == "t_async" and m.get("timeout") is None and m.get("timeout_raw") is None \
+                    and rng.random() < 0.3:
+                m["task"] = "t_ctx"
+                m["timeout"] = rng.choice([0.2, 0.5])
+                m.pop("timeout_str", None)
+                m["beh"] = [{"dur": [0.05], "out": "requeue"}, {"dur": ["never"], "out": "ok", "cleanup": rng.choice([[], ["y"]])}]
+    elif r_x < 0.22 and spec["cfg"]["W"] is None:
+        # the saturation probe's tasks have a slow dependency: A messages must be able to resolve dependencies at once
+        # (slow enough for every slot to have been freed by the earlier messages while the first probe still resolves)
+        spec["deps"] = {"dslow": {"style": rng.choice(["plain_async", "agen", "acm"]), "lat": 60.0, "subs": []}}
+        spec["tasks"] = {"t_probe_dep": {"fn": "async", "deps": ["dslow"]}}
+        spec["_probe_dep"] = True
+        for m in msgs:
+            if (m.get("tok") or "").startswith("p"):
+                m["task"] = "t_probe_dep"
     if mw:
         spec["mws"] = [mw]
         post = [h for h in mw if h != "pre_execute"]
@@ -692,7 +713,7 @@ def gen_c03_spec(rng: random.Random, maxn: int = 40) -> Dict[str, Any]:
             spec["mws"] = [slow, mw] if rng.random() < 0.7 else [mw, slow]
     if not A or A < 0:
         spec["cfg"]["threads"] = len(msgs) + 2  # no limit: every sync function may hold a thread at the same time
-    spec["horizon"] = est_horizon(spec) + 10 * ((A if A and A > 0 else 2) + 2)
+    spec["horizon"] = est_horizon(spec) + 10 * ((A if A and A > 0 else 2) + 2) + (70.0 * (len(probe_toks) + 2) if spec.get("_probe_dep") else 0.0)
     if rng.random() < 0.1 and A:
         spec["via"] = "api"  # taskiq.api.run_receiver_task (never returns: judged at the horizon)
         spec["end_stream"] = False
@@ -944,6 +965,15 @@ def gen_c05_spec(rng: random.Random, maxn: int = 16) -> Dict[str, Any]:
             i = rng.choice(cands)
             msgs.append({"dup_of": i, "at": round(msgs[i]["at"] + rng.choice([0.01, 0.1, 0.3]), 6), "kind": "valid", "task": "t_async",
                          "ackable": msgs[i]["ackable"], "beh": msgs[i]["beh"]})
+    if cfg["W"] is not None and rng.random() < 0.3:
+        # sync task functions still holding their executor thread when wait_tasks_timeout elapses (no concurrency limit, so
+        # that finding F6 stays out of the picture): the worker gives up on them and returns
+        cfg["A"] = None
+        for m_ in msgs:
+            if m_.get("dup_of") is None and m_["kind"] == "valid" and m_.get("timeout") is None and rng.random() < 0.5:
+                m_["task"] = "t_sync"
+                m_["beh"] = {"dur": [], "sync_hold": rng.choice([1.0, 2.0, 5.0]), "out": "ok", "value": 1}
+    cfg["threads"] = len(msgs) + 2
     spec: Dict[str, Any] = {"cfg": cfg, "msgs": msgs, "backend": {"lat": rng.choice([0, 0, 0.05, 0.4])}}
     if rng.random() < 0.15:
         # hostile extra: processing of some messages fails outside the task function (raising hook)
